@@ -196,7 +196,17 @@ def run_case_full(case, scratch):
           vs.append({'class': 'error-swallowed', 'key': 'compiled',
                      'message': 'statements continued after the injected engine error'})
     world = sqlworld.World()
-    res, calls, execs = run_recorded(comp, preds, world, case.get('display_mode', 'silent'))
+    try:
+      res, calls, execs = run_recorded(comp, preds, world, case.get('display_mode', 'silent'))
+    except sqlworld.TooExpensive:
+      raise
+    except (Exception, AssertionError) as e:
+      info['statements'] += len(world.statements)
+      failing = [s_ for s_ in world.statements if s_.error]
+      vs.append({'class': 'engine-error', 'key': type(e).__name__,
+                 'message': 'fault-free workflow run failed: %s: %s; failing statement: %s' % (
+                     type(e).__name__, str(e)[:200], failing[-1].brief() if failing else None)})
+      return vs, info
     info['statements'] += len(world.statements)
     info['calls'] = len(calls)
     v, styles, iterations = check_run(case, comp, preds, world, calls, execs, res, R)
@@ -210,7 +220,14 @@ def run_case_full(case, scratch):
       for p in preds[:2]:
         comp1 = lrun.compiled(text, [p])
         w = sqlworld.World()
-        res1, calls1, execs1 = run_recorded(comp1, [p], w, 'silent')
+        try:
+          res1, calls1, execs1 = run_recorded(comp1, [p], w, 'silent')
+        except sqlworld.TooExpensive:
+          raise
+        except Exception as e:
+          vs.append({'class': 'engine-error', 'key': type(e).__name__,
+                     'message': 'fault-free run of %s alone failed: %s: %s' % (p, type(e).__name__, str(e)[:200])})
+          continue
         info['statements'] += len(w.statements)
         info['alone_compared'] += 1
         a = (res1[p][0], sqlworld.rows_key(res1[p][1]))
